@@ -400,6 +400,8 @@ class Observer:
                                 {"x": 0, "xc": 1, "grad": 6, "lb": 7, "ub": 8, "mats": 9})
                 if na is None:
                     return saved_k["subspace_minimization"](*a, **k)
+                nc = named_args(saved_k["subspace_minimization"], a, k, {"c": 5})
+                na_c = None if nc is None else np.array(nc["c"], dtype=float, copy=True)
                 x, xc, grad, lb, ub, mats = na["x"], na["xc"], na["grad"], na["lb"], na["ub"], na["mats"]
                 xi, xci, gi = np.array(x, copy=True), np.array(xc, copy=True), np.array(grad, copy=True)
                 xbar = saved_k["subspace_minimization"](*a, **k)
@@ -409,12 +411,24 @@ class Observer:
                     xref, free, alpha = ref_subspace(xi, xci, gi, np.asarray(lb, float), np.asarray(ub, float), B)
                     act = np.ones(xi.size, bool)
                     act[free] = False
-                    step = 1.0 + float(np.max(np.abs(xref - xi)))
+                    # scale of the comparison: the displacements the routine works with (the Cauchy point may lie very far
+                    # from x along a direction of tiny gradient, the Newton step then comes back by the same distance)
+                    step = 1.0 + max(float(np.max(np.abs(xref - xi))), float(np.max(np.abs(xci - xi))))
                     # conditioning-aware tolerance: the reduced Newton system is solved through different
                     # factorisations by the code (compact form) and by the reference (dense solve)
                     cond = float(np.linalg.cond(B[np.ix_(free, free)])) if free.size else 1.0
                     tol = max(1e-6, 1e3 * np.finfo(float).eps * cond)
                     judged = bool(tol <= 1e-3 and np.all(np.isfinite(B)))
+                    # the routine works from the vector c it is handed as W^T (xc - x); when the Cauchy search lost that
+                    # vector to cancellation (gradient components spanning ~1e15, a step length of ~1e14 along a direction of
+                    # ~1e-16: not judged on floats in C08 either) the subspace point follows c, not xc - x: not judged
+                    cin = na_c if na_c is not None else None
+                    if judged and cin is not None and getattr(mats, "use_factor", False):
+                        cexp_ = mats.W.T @ (xci - xi)
+                        cin_ = np.asarray(cin, float).ravel()
+                        if cin_.shape == cexp_.shape:
+                            bound = 1e-8 * (np.abs(mats.W.T) @ (np.abs(xci - xi) + 1e-10 * (1.0 + np.abs(xi)))) + 1e-300
+                            judged = bool(np.all(np.abs(cin_ - cexp_) <= bound))
                     mc, mb = model_value(xi, gi, B, xci), model_value(xi, gi, B, xb)
                     obs.ev("Subspace", activeFixed=bool(np.array_equal(xb[act], xci[act])),
                            feasibleTol=bool(np.all(xb >= lb - 1e-12 * (1 + np.abs(lb))) and np.all(xb <= ub + 1e-12 * (1 + np.abs(ub)))),
